@@ -41,6 +41,19 @@ type Doc struct {
 	Problems []Problem
 }
 
+// FatalError is returned by Parse when the file structure cannot be established; Class names
+// the clause (header, trailer-eof, startxref, xref, trailer, unsupported).
+type FatalError struct {
+	Class string
+	Msg   string
+}
+
+func (e *FatalError) Error() string { return e.Class + ": " + e.Msg }
+
+func fatal(class, format string, a ...interface{}) error {
+	return &FatalError{class, fmt.Sprintf(format, a...)}
+}
+
 func (d *Doc) problem(class, format string, a ...interface{}) {
 	d.Problems = append(d.Problems, Problem{class, fmt.Sprintf(format, a...)})
 }
@@ -351,7 +364,7 @@ func Parse(data []byte) (*Doc, error) {
 
 	// 7.5.2 header
 	if !bytes.HasPrefix(data, []byte("%PDF-")) {
-		return d, errors.New("header: file does not start with %PDF-")
+		return d, fatal("header", "file does not start with %%PDF-")
 	}
 	hl := 0
 	for hl < len(data) && !isEOLByte(data[hl]) {
@@ -375,16 +388,16 @@ func Parse(data []byte) (*Doc, error) {
 	}
 	line, _, prev := readLineBack(data, end)
 	if string(line) != "%%EOF" {
-		return d, fmt.Errorf("trailer: last line is %q, not %%%%EOF", clip(line))
+		return d, fatal("trailer-eof", "last line is %q, not %%%%EOF", clip(line))
 	}
 	line, _, prev = readLineBack(data, prev)
 	isInt, off, _, ok := parseNumber(bytes.TrimSpace(line))
 	if !ok || !isInt || off < 0 {
-		return d, fmt.Errorf("trailer: line before %%%%EOF is %q, not a byte offset", clip(line))
+		return d, fatal("startxref", "line before %%%%EOF is %q, not a byte offset", clip(line))
 	}
 	line, _, _ = readLineBack(data, prev)
 	if string(bytes.TrimSpace(line)) != "startxref" {
-		return d, fmt.Errorf("trailer: expected 'startxref' line, found %q", clip(line))
+		return d, fatal("startxref", "expected 'startxref' line, found %q", clip(line))
 	}
 	d.XrefOffset = int(off)
 
@@ -450,7 +463,7 @@ func Parse(data []byte) (*Doc, error) {
 		}
 	}
 	if _, ok := d.Trailer["Encrypt"]; ok {
-		return d, errors.New("encrypted files are not supported")
+		return d, fatal("unsupported", "encrypted files are not supported")
 	}
 
 	// body, independent of the table
@@ -527,9 +540,9 @@ func (d *Doc) parseXrefSection(off int) (Dict, error) {
 	b := d.Data
 	if !hasPrefixAt(b, off, "xref") {
 		if off >= 0 && off < len(b) && b[off] >= '0' && b[off] <= '9' {
-			return nil, fmt.Errorf("startxref %d: cross-reference streams are not supported (found %q)", off, snippet(b, off))
+			return nil, fatal("unsupported", "startxref %d: cross-reference streams are not supported (found %q)", off, snippet(b, off))
 		}
-		return nil, fmt.Errorf("startxref %d does not point at the 'xref' keyword (found %q)", off, snippet(b, off))
+		return nil, fatal("startxref", "offset %d does not point at the 'xref' keyword (found %q)", off, snippet(b, off))
 	}
 	pos := off + 4
 	if hasPrefixAt(b, pos, "\r\n") {
@@ -552,7 +565,7 @@ func (d *Doc) parseXrefSection(off int) (Dict, error) {
 		t1, err1 := l.next()
 		t2, err2 := l.next()
 		if err1 != nil || err2 != nil || t1.kind != tInt || t2.kind != tInt || t1.i < 0 || t2.i < 0 {
-			return nil, fmt.Errorf("xref: bad subsection header at offset %d: %q", pos, snippet(b, pos))
+			return nil, fatal("xref", "bad subsection header at offset %d: %q", pos, snippet(b, pos))
 		}
 		pos = l.pos
 		// single EOL after the header
@@ -573,7 +586,7 @@ func (d *Doc) parseXrefSection(off int) (Dict, error) {
 		firstNum, count := int(t1.i), int(t2.i)
 		for k := 0; k < count; k++ {
 			if pos+20 > len(b) {
-				return nil, fmt.Errorf("xref: table truncated at entry %d", firstNum+k)
+				return nil, fatal("xref", "table truncated at entry %d", firstNum+k)
 			}
 			e := b[pos : pos+20]
 			okFmt := e[10] == ' ' && e[16] == ' ' && (e[17] == 'n' || e[17] == 'f') &&
@@ -589,7 +602,7 @@ func (d *Doc) parseXrefSection(off int) (Dict, error) {
 				}
 			}
 			if !okFmt {
-				return nil, fmt.Errorf("xref: entry %d is not in the 20-byte format 'nnnnnnnnnn ggggg n eol': %q", firstNum+k, e)
+				return nil, fatal("xref", "entry %d is not in the 20-byte format 'nnnnnnnnnn ggggg n eol': %q", firstNum+k, e)
 			}
 			var o int64
 			for _, c := range e[0:10] {
@@ -609,11 +622,11 @@ func (d *Doc) parseXrefSection(off int) (Dict, error) {
 	p := &objParser{lexer: lexer{b: b, pos: pos}}
 	v, err := p.parseObject()
 	if err != nil {
-		return nil, fmt.Errorf("trailer: %v", err)
+		return nil, fatal("trailer", "%v", err)
 	}
 	tr, ok := v.(Dict)
 	if !ok {
-		return nil, errors.New("trailer: not a dictionary")
+		return nil, fatal("trailer", "not a dictionary")
 	}
 	for _, k := range p.dupKeys {
 		d.problem("dict-duplicate-key", "trailer: %s", k)
